@@ -209,6 +209,8 @@ impl DumpCfg {
         let mut s = format!("blamed:{}", self.blamed);
         if let Some(c) = &self.crash {
             s.push_str(&format!(",crash:{}:{}:{}:{}", c.tid, c.signo, c.code, c.addr));
+            let g: Vec<String> = c.gregs.iter().map(|v| (*v as u64).to_string()).collect();
+            s.push_str(&format!(",cg:{}:{}", g.join("."), c.fp_seed));
         }
         if let Some(l) = self.limit {
             s.push_str(&format!(",limit:{}", l));
